@@ -193,7 +193,7 @@ Proof. intros F H. apply subst_meq; auto. intros i. apply lazy_args_meq; auto. Q
 (* ---- helper bodies ---- *)
 Lemma interp_meq mask l l' p : Forall2 meq l l' -> meq (interp mask l p) (interp mask l' p).
 Proof.
-  intros F. induction p; simpl; try (constructor; auto); try apply meq_refl.
+  intros F. induction p; simpl; try assumption; try (constructor; auto); try apply meq_refl.
   - destruct (mask i); [apply meq_refl|]. apply bind_meq; auto. apply nth_meq; auto.
   - destruct (mask i); [|apply meq_refl]. apply bind_meq; auto.
     apply subst_meq; [intros; apply meq_refl|]. apply nth_meq; auto.
@@ -222,7 +222,7 @@ Qed.
 Lemma interp_subst h mask l p : ntm p ->
   meq (subst_match h (interp mask l p)) (interp mask (masked_map mask (subst_match h) 0 l) p).
 Proof.
-  induction 1; simpl; try (constructor; auto); try apply meq_refl.
+  induction 1; simpl; try assumption; try (constructor; auto); try apply meq_refl.
   - destruct (mask i) eqn:Em; [apply meq_refl|].
     eapply meq_trans; [apply subst_bind|]. apply bind_meq; auto.
     rewrite nth_masked_map. simpl. rewrite Em.
